@@ -8,5 +8,5 @@ CONSTANTS
   RejectTrailing = TRUE
   ValidateFiles = TRUE
   CompressionTransparent = TRUE
-  ZeroCRCCompared = TRUE
-INVARIANTS TypeOK SinkAcceptedIsSource SinkMutatedRejected SinkUnmutatedInstalls SplitIndependent RestoreAcceptedIsSource RestoreMutatedRejected RestoreUnmutatedInstalls
+  ZeroCRCCompared = FALSE
+INVARIANTS SinkAcceptedIsSource
